@@ -122,6 +122,18 @@ def run_sanitisers(c, prog):
     sort_nodes = [n for n in core.walk_fn(fn) if n.get("k") == "MethodCall" and n["m"].startswith("sort") and core.place_root(n["recv"]) == ("self", ["shared_strings"])]
     dom = cfg.dominators()
     id_blocks = [i for i, cal, gen, t in D.mir_calls(fn) if cal and cal.endswith("HashMap::<K, V, S, A>::insert")]
+    # `ids.extend(strings.iter().cloned().enumerate().map(|(i, s)| (s, i as u32)))` is the same assignment
+    ext_nodes = []
+    for n in core.walk_fn(fn):
+        if n.get("k") == "MethodCall" and n["m"] == "extend" and core.place_root(n["recv"]) == ("self", ["shared_string_ids"]) and n["args"]:
+            names_, base_ = [], core.strip(n["args"][0])
+            while base_.get("k") == "MethodCall":
+                names_.append(base_["m"])
+                base_ = core.strip(base_["recv"])
+            if "enumerate" in names_ and "shared_strings" in core.place_root(base_)[1] and core.place_root(base_)[0] == "self":
+                ext_nodes.append(n)
+    ext_spans = {n.get("sp") for n in ext_nodes}
+    id_blocks += [i for i, cal, gen, t in D.mir_calls(fn) if t.get("sp") in ext_spans and cal and cal.endswith("::extend")]
     after_sort = set()
     for sb in sorts:
         after_sort |= cfg.reachable_from(sb) - {sb}
@@ -136,6 +148,8 @@ def run_sanitisers(c, prog):
             if it.get("k") == "MethodCall" and it["m"] == "enumerate" and core.place_root(it["recv"])[:2] == ("self", core.place_root(it["recv"])[1]) and "shared_strings" in core.place_root(it["recv"])[1]:
                 if any(x.get("k") == "MethodCall" and x["m"] == "insert" and core.place_root(x["recv"]) == ("self", ["shared_string_ids"]) for x in core.walk(fl[2])):
                     assign_ok = True
+    if ext_nodes:
+        assign_ok = True
     # no other function stores a non-dummy id
     other_ids = []
     for f2 in prog.lib_fns():
